@@ -422,6 +422,19 @@ func (p *c01) check(e *xp.Node, table xp.Table, res *core.CaseResult) {
 		res.Fail(c01Class(n, kids), input, fmt.Sprintf("XPath 1.0 value %s, implementation value %s (operands as the implementation evaluated them: %v)", want, got, kids))
 	}
 	visit(e)
+	// the same expression with only the parentheses XPath 1.0 needs: the value of an expression does not
+	// depend on how much of its structure is spelled out (operator precedence is C03's subject; here it is
+	// the values that must agree)
+	if full, min := xp.Render(e, xp.RenderFull), xp.Render(e, xp.RenderMin); min != full && e.Kind != xp.KPath {
+		of, om := c.run(full), c.run(min)
+		res.Ev("unparenthesised_forms_evaluated", 1)
+		vf, okf := of.ScalarVal()
+		vm, okm := om.ScalarVal()
+		if okf != okm || (okf && !xp.SameVal(vf, vm)) || (of.Err == "") != (om.Err == "") {
+			res.Fail("C01/value-depends-on-optional-parentheses", jsonStr(c01Input{Expr: min, Table: usedTable(e, table)}),
+				fmt.Sprintf("fully parenthesised %s gives %v (err %q); with only the needed parentheses %s gives %v (err %q)", full, vf, of.Err, min, vm, om.Err))
+		}
+	}
 }
 
 func usedTable(n *xp.Node, t xp.Table) xp.Table {
